@@ -194,6 +194,13 @@ func genClientCase(r *hx.Rand) []string {
 			}
 		}
 	}
+	if r.Chance(1, 40) {
+		if r.Chance(1, 2) {
+			script = append(script, fmt.Sprintf("bigget %d %d", r.PickInt(512, 768, 1024), r.Range(1, 6)))
+		} else {
+			script = append(script, fmt.Sprintf("bigfront %d %d", r.PickInt(512, 768, 1024), r.PickInt(0, 1, 2, 2, 3, 5)))
+		}
+	}
 	for i, n := 0, r.Range(2, 6); i < n; i++ {
 		b := blobs[r.Intn(len(blobs))]
 		z := r.Intn(2)
